@@ -199,11 +199,30 @@ func Admissible(t *Type, w int) bool {
 // ---------- decoding ----------
 
 // DecodeError is returned by the reference decoder for input it rejects.
-type DecodeError struct{ Msg string }
+type DecodeError struct {
+	Msg     string
+	Pairing bool
+}
 
 func (e *DecodeError) Error() string { return e.Msg }
 
-func derr(f string, a ...interface{}) error { return &DecodeError{fmt.Sprintf(f, a...)} }
+func derr(f string, a ...interface{}) error {
+	e := &DecodeError{Msg: fmt.Sprintf(f, a...)}
+	for _, x := range a {
+		if in, ok := x.(*DecodeError); ok && in.Pairing {
+			e.Pairing = true
+		}
+	}
+	return e
+}
+
+// derrPair reports an element or map entry whose tags are not the canonical 0 / 0,1.  The format's
+// sequential reading rule (a reader looking for tag t skips fields with smaller tags) lets a
+// tolerant reader take such content differently from the positional pairing of the generic parser,
+// so callers may treat it as "well-formed, but not determined by this reference".
+func derrPair(f string, a ...interface{}) error {
+	return &DecodeError{Msg: fmt.Sprintf(f, a...), Pairing: true}
+}
 
 // DecodeStruct decodes b (a field sequence up to the end of input, as written by WriteTo) by
 // schema s.  Unknown tags are ignored; fields are looked up with the format's sequential
@@ -273,7 +292,7 @@ func DecodeNode(t *Type, n *Node) (*Value, error) {
 		v := &Value{}
 		for i := range n.Keys {
 			if n.Keys[i].Tag != 0 || n.Vals[i].Tag != 1 {
-				return nil, derr("map entry %d has tags %d/%d, want 0/1", i, n.Keys[i].Tag, n.Vals[i].Tag)
+				return nil, derrPair("map entry %d has tags %d/%d, want 0/1", i, n.Keys[i].Tag, n.Vals[i].Tag)
 			}
 			k, err := DecodeNode(t.Key, n.Keys[i])
 			if err != nil {
@@ -310,7 +329,7 @@ func DecodeNode(t *Type, n *Node) (*Value, error) {
 		} else {
 			for i, c := range n.List {
 				if c.Tag != 0 {
-					return nil, derr("list element %d has tag %d, want 0", i, c.Tag)
+					return nil, derrPair("list element %d has tag %d, want 0", i, c.Tag)
 				}
 				e, err := DecodeNode(t.Elem, c)
 				if err != nil {
